@@ -1199,9 +1199,10 @@ def work(chunk):
     cov = {}
     out = []
     sample = None
-    chunk, ndiag = chunk
+    chunk, quick = chunk
     for prog, maxsize, cap in chunk:
         size = pick_size(prog, maxsize, cap)
+        ndiag = 3 if (quick or (prog[0] == "env" and len(prog[1]) == 4)) else 5
         j = judge_prog(prog, size, ndiag)
         cov["programs_set%d" % size] = cov.get("programs_set%d" % size, 0) + 1
         for k, v in j.cov.items():
@@ -1249,8 +1250,8 @@ def run(ctx):
             cur, acc = [], 0
     if cur:
         chunks.append(cur)
-    ndiag = 3 if ctx.quick else 5
-    for r in ctx.pmap(work, [(ch, ndiag) for ch in chunks], chunksize=1):
+    ndiag = "3" if ctx.quick else "5 (4-atom envelopes: 3)"
+    for r in ctx.pmap(work, [(ch, ctx.quick) for ch in chunks], chunksize=1):
         ctx.merge(r)
     c = ctx.cov
     c["shapes"] = len(shapes)
@@ -1265,7 +1266,7 @@ def run(ctx):
                  "every field's boundary set {min, min+1, 0xA5.. pattern, max-1, max}; when the product exceeds the cap "
                  "(%s) the sets {min, pattern, max}, then {min, max} are used (coverage.programs_set5/3/2); nest programs "
                  "use {min, pattern, max} (depth 3%s: {min, max}); sequences hold 0 elements, 1 element x all item "
-                 "assignments, 2 x 3-value sets, 3 x 2-value sets. Then, for %d diagonal assignments, every truncation "
+                 "assignments, 2 x 3-value sets, 3 x 2-value sets. Then, for %s diagonal assignments, every truncation "
                  "offset and 2 trailing strings with length checking on and off; for the pattern assignment min-1/max+1 "
                  "of every integer, fixed buffers one octet short/long, every single-bit flip of fixed bit-field parts, "
                  "every reserved/padding bit set, 5-9 over-wide values per bit-field. programs = definitions, assignments "
